@@ -263,15 +263,15 @@ class Quantity:
 
     @property
     def shape(self):
-        return self._v.shape if isinstance(self._v, symnp.SymArray) else ()
+        return getattr(self._v, "shape", ())
 
     @property
     def ndim(self):
-        return self._v.ndim if isinstance(self._v, symnp.SymArray) else 0
+        return getattr(self._v, "ndim", 0)
 
     @property
     def size(self):
-        return self._v.size if isinstance(self._v, symnp.SymArray) else 1
+        return getattr(self._v, "size", 1)
 
     @property
     def isscalar(self):
@@ -282,7 +282,7 @@ class Quantity:
         return self._v.dtype if isinstance(self._v, symnp.SymArray) else _np.dtype("float64")
 
     def __len__(self):
-        if not isinstance(self._v, symnp.SymArray):
+        if not hasattr(self._v, "__len__"):
             raise TypeError("'Quantity' object with a scalar value has no len()")
         return len(self._v)
 
